@@ -317,6 +317,51 @@ func TestVerifC17(t *testing.T) {
 					bad = true
 					return
 				}
+				// An answer instead of an error claims to be the RA that would be sent:
+				// whatever the wildcards expand to, its header (router lifetime 0 when the
+				// interface does not forward) and the options no wildcard touches are
+				// determined by the configuration alone.
+				if o.apiCode == 200 {
+					list, err := vAPIInterfaces(o.apiBody)
+					adv, _ := map[string]any(nil), error(nil)
+					if err == nil && len(list) > 0 {
+						adv, _ = list[0]["advertisement"].(map[string]any)
+					}
+					if adv != nil {
+						wa := vExpectedAPI(w0)
+						bad0 := ""
+						for k, v := range wa {
+							if k == "options" {
+								continue
+							}
+							if d := vJSONDiff("advertisement."+k, v, adv[k], nil); d != "" {
+								bad0 = d
+							}
+						}
+						wo, _ := wa["options"].(map[string]any)
+						goo, _ := adv["options"].(map[string]any)
+						for _, k := range []string{"dnssl", "mtu", "captive_portal"} {
+							if v, ok := wo[k]; ok && v != nil && v != 0.0 && v != "" {
+								if l, isList := v.([]any); isList && len(l) == 0 {
+									continue
+								}
+								if d := vJSONDiff("advertisement.options."+k, v, goo[k], nil); d != "" {
+									bad0 = d
+								}
+							}
+						}
+						if bad0 != "" {
+							d := map[string]any{"lifecycle_point": "never-initialised", "api_body": o.apiBody}
+							for kk, v := range det {
+								d[kk] = v
+							}
+							r.Violation(id, "api-content@never-initialised", "the debug API answered for an interface whose wildcards cannot be expanded yet, and what it reports is not the RA that would be sent: "+bad0, d)
+							bad = true
+							return
+						}
+						r.Count("preinit_wildcard_api_answers_checked", 1)
+					}
+				}
 				// A scrape that reports no error claims to be complete: every
 				// configured interface must then at least carry its four state
 				// gauges (their values do not depend on the wildcard content).
